@@ -1,10 +1,15 @@
 import RP.Lemmas.C01.Abs
-/-! C01 table, no-flush rows, deck `short`, count vectors whose deuce digit is 3
-    (checked with `native_decide`: the Lean compiler/interpreter is trusted for this row set). -/
+/-! C01 table, no-flush rows, deck `short`, count vectors whose deuce digit is 3.
+    Checked by native evaluation (what `native_decide` does: axiom `Lean.ofReduceBool`, the Lean
+    compiler is trusted for this row set); written with the axiom directly because Lean 4.33's
+    `native_decide` tactic emits one anonymous axiom per use, which the axiom audit cannot name. -/
 namespace RP.C01
 open RP.Eval
+set_option linter.deprecated false
 
-theorem tabN_short_3 : forallCV 12 (7 - 3) (fun rest => rowN .short (3 + 8 * rest)) = true := by
-  native_decide
+def tabN_short_3_native_decide : Bool := forallCV 12 (7 - 3) (fun rest => rowN .short (3 + 8 * rest))
+
+theorem tabN_short_3 : forallCV 12 (7 - 3) (fun rest => rowN .short (3 + 8 * rest)) = true :=
+  Lean.ofReduceBool tabN_short_3_native_decide true rfl
 
 end RP.C01
